@@ -277,6 +277,22 @@ structure Oracle where
 /-- `BI` -/
 def kwBI : List UInt8 := [66, 73]
 
+/-- The oracle that the model driver runs with.  `isEof`: the error is an EOF error when no lexeme is left
+    (`Lexer::next` fails with `EOF` only), when the failing operand starts a literal string (its lexer fails only by
+    running off the end), or a hexadecimal string that is never closed; other run-offs (unterminated arrays /
+    dictionaries, a name that ends in a truncated `#` escape) are not recognised: such inputs are outside the domain of
+    the property and the streams that contain them are drift-only.  `inlineImage`: the value it is given. -/
+def lexOracle (img : Buf → Nat → Out (Option Nat × Nat)) : Oracle :=
+  { isEof := fun buf pos => match PdfLex.next buf pos with
+      | .err => true
+      | .ok w =>
+        let t := PdfLex.slice buf w.1 w.2
+        if t == [40] then true
+        else if t == [60] then !((buf.extract w.2 buf.size).toList.contains 62)
+        else false
+      | _ => false
+    inlineImage := img }
+
 /-- One round of the loop of `OpBuilder::parse` at lexer position `pos`: `none` — `break` (EOF error);
     `some (c, p)` — the builder afterwards and the lexer position. -/
 def bytesStep {R : Type} (ro : RealOps R) (env : Env R) (o : Oracle) (allow : Bool) (buf : Buf) (c : PCfg R)
